@@ -10,31 +10,31 @@ let rec nat_of_int (n:int) : nat = if n <= 0 then O else S (nat_of_int (n-1))
 let rec int_of_nat (n:nat) : int = match n with O -> 0 | S m -> 1 + int_of_nat m
 
 (* arbitrary-size Z to lowercase hex (no 0x), for 64-bit unsigned values such as hashes *)
-let hex_of_pos (p:positive) : string =
+let hex_of_pos (p:positive) : Stdlib.String.t =
   let rec bits p acc = match p with XH -> 1 :: acc | XO q -> bits q (0 :: acc) | XI q -> bits q (1 :: acc) in
   (* bits returns MSB first after accumulation *)
   let bl = bits p [] in
-  let n = List.length bl in
+  let n = Stdlib.List.length bl in
   let pad = (4 - n mod 4) mod 4 in
-  let bl = (List.init pad (fun _ -> 0)) @ bl in
-  let buf = Buffer.create 16 in
+  let bl = (Stdlib.List.init pad (fun _ -> 0)) @ bl in
+  let buf = Stdlib.Buffer.create 16 in
   let rec go l = match l with
-    | a::b::c::d::r -> Buffer.add_char buf "0123456789abcdef".[a*8+b*4+c*2+d]; go r
+    | a::b::c::d::r -> Stdlib.Buffer.add_char buf "0123456789abcdef".[a*8+b*4+c*2+d]; go r
     | _ -> () in
-  go bl; Buffer.contents buf
-let hex_of_z (x:z) : string = match x with Z0 -> "0" | Zpos p -> hex_of_pos p | Zneg p -> "-" ^ hex_of_pos p
+  go bl; Stdlib.Buffer.contents buf
+let hex_of_z (x:z) : Stdlib.String.t = match x with Z0 -> "0" | Zpos p -> hex_of_pos p | Zneg p -> "-" ^ hex_of_pos p
 
-(* hex string of bytes <-> list of Z bytes *)
-let hexval c = match c with '0'..'9' -> Char.code c - 48 | 'a'..'f' -> Char.code c - 87 | 'A'..'F' -> Char.code c - 55 | _ -> failwith "hex"
-let bytes_of_hex (s:string) : z list =
+(* hex Stdlib.String.t of bytes <-> list of Z bytes *)
+let hexval c = match c with '0'..'9' -> Stdlib.Char.code c - 48 | 'a'..'f' -> Stdlib.Char.code c - 87 | 'A'..'F' -> Stdlib.Char.code c - 55 | _ -> failwith "hex"
+let bytes_of_hex (s:Stdlib.String.t) : z list =
   if s = "-" then [] else
-  let n = String.length s / 2 in
-  List.init n (fun i -> z_of_int (hexval s.[2*i] * 16 + hexval s.[2*i+1]))
-let hex_of_bytes (l:z list) : string =
+  let n = Stdlib.String.length s / 2 in
+  Stdlib.List.init n (fun i -> z_of_int (hexval s.[2*i] * 16 + hexval s.[2*i+1]))
+let hex_of_bytes (l:z list) : Stdlib.String.t =
   if l = [] then "-" else
-  String.concat "" (List.map (fun b -> Printf.sprintf "%02x" (int_of_z b)) l)
-let ints_of_csv (s:string) : int list =
-  if s = "" || s = "-" then [] else List.map int_of_string (String.split_on_char ',' s)
-let csv_of_ints (l:int list) : string = if l = [] then "-" else String.concat "," (List.map string_of_int l)
-let zs_of_csv s = List.map z_of_int (ints_of_csv s)
-let csv_of_zs l = csv_of_ints (List.map int_of_z l)
+  Stdlib.String.concat "" (Stdlib.List.map (fun b -> Stdlib.Printf.sprintf "%02x" (int_of_z b)) l)
+let ints_of_csv (s:Stdlib.String.t) : int list =
+  if s = "" || s = "-" then [] else Stdlib.List.map int_of_string (Stdlib.String.split_on_char ',' s)
+let csv_of_ints (l:int list) : Stdlib.String.t = if l = [] then "-" else Stdlib.String.concat "," (Stdlib.List.map string_of_int l)
+let zs_of_csv s = Stdlib.List.map z_of_int (ints_of_csv s)
+let csv_of_zs l = csv_of_ints (Stdlib.List.map int_of_z l)
